@@ -298,6 +298,8 @@ def check(P: Project, R: Report) -> None:
         envs = [e for e in st.events if e.startswith("envelope:")]
         invs = [e for e in st.events if e.startswith("invoke:")]
         d = an.defs.get(resp_t, ("", None))[0]
+        if not d and isinstance(resp, ast.Await):
+            d = "await " + resp_t  # `return await handler(…)`: the handler's answer handed on as it is
         if envs and isinstance(resp, ast.Call):
             kind, idt = envs[-1].split(":")[1], envs[-1].split(":")[2]
             ok = len(envs) == 1 and kind in ("error", "response") and idt == ID
@@ -348,7 +350,17 @@ def check(P: Project, R: Report) -> None:
                 return f"envelope:{env['kind']}:{idt}:{code}"
             return None
 
-        ha, ho = run_paths(m.node, event_of=hev, fallible=True)
+        looked_up = {}
+
+        def hstmt(stmt, st, an2, looked_up=looked_up):
+            # a registry lookup `self._tools[name]` is reached only where the path has established `name in self._tools`
+            for c in walk_local(stmt):
+                if isinstance(c, ast.Subscript) and isinstance(c.value, ast.Attribute) and c.value.attr in ("_tools", "_resources") and isinstance(c.ctx, ast.Load) and isinstance(c.slice, ast.Name):
+                    member = subst_text(ast.Compare(left=c.slice, ops=[ast.In()], comparators=[c.value]), st)
+                    looked_up.setdefault(id(c), []).append(member in st.lits)
+            return []
+
+        ha, ho = run_paths(m.node, event_of=hev, stmt_event_of=hstmt, fallible=True)
         R.paths += len(ho.ret)
         for st, node in ho.ret:
             where = f"{m.module.rel}:{node.lineno}"
@@ -415,6 +427,8 @@ def check(P: Project, R: Report) -> None:
         for c in walk_local(m.node):
             if isinstance(c, ast.Subscript) and isinstance(c.value, ast.Attribute) and c.value.attr in ("_tools", "_resources") and isinstance(c.ctx, ast.Load) and isinstance(c.slice, ast.Name):
                 guard = any(isinstance(i, ast.If) and ast.unparse(i.test) == f"{c.slice.id} not in self.{c.value.attr}" for i in walk_local(m.node))
+                if looked_up.get(id(c)):
+                    guard = all(looked_up[id(c)])
                 # … or EAFP: the lookup sits in a try whose KeyError/LookupError arm answers -32602
                 for t in walk_local(m.node):
                     if isinstance(t, ast.Try) and any(c in list(walk_local(s_)) for s_ in t.body):
